@@ -80,7 +80,7 @@ def main():
         "engines": [{"name": "sim", "path": "/verif/sim", "serves_properties": sorted(CHECKS), "kind_free_text": "deterministic simulator (seeded scheduler, simulated disk/transport/clock, fault injection, reference models, shrinker, fresh-process replay) written in Go; harness built with go1.26.8 (testing/synctest)"}],
         "checks": checks,
         "not_applicable": [{"property_id": k, "reason": v} for k, v in sorted(NA.items())],
-        "notes": "Exit codes: 0 property held on everything explored, 1 VIOLATION (replay file given), 2 infrastructure trouble (never a VIOLATION). VERIF_SEED selects the seed, VERIF_RUNS overrides the run count.",
+        "notes": "Exit codes: 0 property held on everything explored, 1 VIOLATION (replay file given), 2 infrastructure trouble (never a VIOLATION). VERIF_SEED selects the seed, VERIF_RUNS overrides the run count, VERIF_WORKERS the number of worker processes, VERIF_REPO=<dir> builds against a scratch copy of the repository instead of /repo (used by tools_try_patch.sh and the mutation campaign; the registered commands use /repo). /verif/seeded holds 106 independently written breaking changes with what caught them; /verif/mutation/results.jsonl the mutation campaign.",
     }
     claimed = set(CHECKS)
     for pid in []:
